@@ -386,13 +386,48 @@ func (vc *VC) havocWrites(st *State, w map[string]*writeSet) {
 
 // execRegion runs the blocks of region starting at start (whose phis/header handling are skipped).
 func (vc *VC) execRegion(fr *frame, start *ssa.BasicBlock, region map[*ssa.BasicBlock]bool, st0 *State) []retRec {
+	return vc.execRegionX(fr, start, region, st0, nil)
+}
+
+// dominatedRegion: the blocks dominated by b (restricted to region, if any).
+func dominatedRegion(fn *ssa.Function, b *ssa.BasicBlock, region map[*ssa.BasicBlock]bool) map[*ssa.BasicBlock]bool {
+	out := map[*ssa.BasicBlock]bool{}
+	for _, x := range fn.Blocks {
+		if region != nil && !region[x] {
+			continue
+		}
+		if b.Dominates(x) {
+			out[x] = true
+		}
+	}
+	return out
+}
+
+const maxJoinSplits = 8
+
+// execRegionX runs the blocks of region (nil = whole function) starting at start, whose phis and loop
+// header handling are assumed done by the caller. Edges that leave the region are appended to exits.
+func (vc *VC) execRegionX(fr *frame, start *ssa.BasicBlock, region map[*ssa.BasicBlock]bool, st0 *State, exits *[]edgeIn) []retRec {
 	fn := fr.fn
 	order := topoOrder(fn)
 	incoming := map[*ssa.BasicBlock][]edgeIn{}
+	handled := map[*ssa.BasicBlock]bool{}
 	var rets []retRec
 	started := false
+	setPhis := func(b *ssa.BasicBlock, in edgeIn) {
+		for _, instr := range b.Instrs {
+			phi, ok := instr.(*ssa.Phi)
+			if !ok {
+				break
+			}
+			fr.env[phi] = in.phis[phi]
+		}
+	}
 	for _, b := range order {
 		if region != nil && !region[b] {
+			continue
+		}
+		if handled[b] {
 			continue
 		}
 		var st *State
@@ -408,33 +443,67 @@ func (vc *VC) execRegion(fr *frame, start *ssa.BasicBlock, region map[*ssa.Basic
 			if len(ins) == 0 {
 				continue
 			}
-			// a return block reached over several edges is executed once per edge (one level of path
-			// splitting): postconditions are then checked against each incoming state instead of an
-			// ite-merged heap, which keeps the incoming heap versions visible to quantifier instantiation.
-			if _, isRet := b.Instrs[len(b.Instrs)-1].(*ssa.Return); isRet && fr.top && os.Getenv("GOVC_NOSPLIT") == "" && len(ins) > 1 && len(ins) <= 12 && !isLoopHeader(b) && vc.dry == 0 {
+			_, isRet := b.Instrs[len(b.Instrs)-1].(*ssa.Return)
+			split := fr.top && vc.dry == 0 && len(ins) > 1 && !isLoopHeader(b) && os.Getenv("GOVC_NOSPLIT") == ""
+			// a return block reached over several edges is executed once per edge, and a join block is
+			// split the same way while the budget lasts (bounded path splitting): obligations are then
+			// checked against each incoming state instead of an ite-merged heap, which keeps the incoming
+			// heap versions visible to quantifier instantiation.
+			if split && isRet && len(ins) <= 16 {
 				for _, in := range ins {
 					est := &State{pc: in.cond, heap: in.st.heap.Clone()}
-					pi := predIndex(b, in.from)
-					for _, instr := range b.Instrs {
-						phi, ok := instr.(*ssa.Phi)
-						if !ok {
-							break
-						}
-						fr.env[phi] = vc.valueOf(fr, phi.Edges[pi])
-					}
+					setPhis(b, in)
 					term := vc.execInstrs(fr, b, est)
 					if t, ok := term.(*ssa.Return); ok {
 						var vals []Value
 						for _, r := range t.Results {
 							vals = append(vals, vc.valueOf(fr, r))
 						}
-						if fr.top {
-							vc.atReturn(fr, est, vals, t)
-						}
+						vc.atReturn(fr, est, vals, t)
 						rets = append(rets, retRec{est, vals})
 					}
 				}
 				continue
+			}
+			if split && len(ins) <= 4 && fr.splits+len(ins) <= maxJoinSplits {
+				sub := dominatedRegion(fn, b, region)
+				simple := len(sub) <= 24
+				for blk := range sub {
+					if isLoopHeader(blk) {
+						simple = false // loops are not duplicated
+					}
+					for _, in := range blk.Instrs {
+						if ci, ok := in.(ssa.CallInstruction); ok {
+							for _, a := range ci.Common().Args {
+								if _, isMC := a.(*ssa.MakeClosure); isMC {
+									simple = false // nor are expanded iterations
+								}
+							}
+						}
+					}
+				}
+				if simple {
+					fr.splits += len(ins)
+					for blk := range sub {
+						handled[blk] = true
+					}
+					for _, in := range ins {
+						est := &State{pc: in.cond, heap: in.st.heap.Clone()}
+						setPhis(b, in)
+						var out []edgeIn
+						rets = append(rets, vc.execRegionX(fr, b, sub, est, &out)...)
+						for _, e := range out {
+							if region != nil && !region[e.to] {
+								if exits != nil {
+									*exits = append(*exits, e)
+								}
+								continue
+							}
+							incoming[e.to] = append(incoming[e.to], e)
+						}
+					}
+					continue
+				}
 			}
 			var conds []Term
 			var heaps []*Heap
@@ -452,8 +521,7 @@ func (vc *VC) execRegion(fr *frame, start *ssa.BasicBlock, region map[*ssa.Basic
 				var v Value
 				first := true
 				for i := len(ins) - 1; i >= 0; i-- {
-					pi := predIndex(b, ins[i].from)
-					ev := vc.valueOf(fr, phi.Edges[pi])
+					ev := ins[i].phis[phi]
 					if first {
 						v, first = ev, false
 					} else {
@@ -468,11 +536,17 @@ func (vc *VC) execRegion(fr *frame, start *ssa.BasicBlock, region map[*ssa.Basic
 		}
 		term := vc.execInstrs(fr, b, st)
 		follow := func(to *ssa.BasicBlock, cond Term) {
-			if region != nil && !region[to] {
-				return
-			}
-			if region != nil && to == start {
+			if region != nil && to == start && isBackEdge(b, to) && exits == nil {
 				return // back edge of the loop being dry-run
+			}
+			if region != nil && !region[to] {
+				if exits != nil && !isBackEdge(b, to) {
+					e := vc.mkEdge(fr, b, to, st, cond)
+					*exits = append(*exits, e)
+				} else if exits != nil {
+					vc.flow(fr, b, to, st, cond, incoming) // back edge to an enclosing loop header: checked right here
+				}
+				return
 			}
 			vc.flow(fr, b, to, st, cond, incoming)
 		}
